@@ -3,6 +3,7 @@ package main
 import (
 	"fmt"
 	"go/types"
+	"strings"
 
 	"golang.org/x/tools/go/ssa"
 )
@@ -77,6 +78,7 @@ func (x *Exec) doMapUpdate(st *State, in *ssa.MapUpdate) {
 		x.oblige(st, "nonnil", "mapupdate"+x.instrLabel(in, "mapupdate"), mkNe(ref, mkInt(0)), "assignment to entry in nil map", in.Pos())
 	}
 	x.assume(mkNe(ref, mkInt(0)))
+	x.updateAsserts(st, in)
 	k := x.keyTerm(st, in.Map.Type(), x.val(st, in.Key))
 	pname, ph := x.mapPresence(st, in.Map.Type())
 	st.heap[pname] = mkStore(ph, ref, mkStore(mkSelect(ph, ref), k, tTrue))
@@ -164,4 +166,53 @@ func (x *Exec) doNext(st *State, in *ssa.Next) Value {
 		}
 	}
 	return TupleV{ok, kv, vv}
+}
+
+// updateAsserts: `atupdate label: expr` clauses of the function under verification are asserted at every map update executed in
+// that function itself or in a function literal defined inside it (closures are inlined, so the update runs in the closure's
+// frame and expr is evaluated over that frame's named locals and captured variables). An assertion naming a local that is not in
+// scope at the update does not apply there (noted); a label that applies nowhere is a failed obligation (see verifyFunc).
+func (x *Exec) updateAsserts(st *State, in *ssa.MapUpdate) {
+	if x.spec == nil || len(x.spec.UpdAsserts) == 0 {
+		return
+	}
+	fr := st.frame()
+	inside := false
+	for f := fr.fn; f != nil; f = f.Parent() {
+		if f == x.fn {
+			inside = true
+		}
+	}
+	if !inside {
+		return
+	}
+	for _, c := range x.spec.UpdAsserts {
+		env := x.localsEnv(st, fr, len(st.frames)-1, in.Block(), pkgPathOf(x.fn))
+		if len(st.frames) == 1 {
+			x.bindEntry(env)
+		}
+		var g *Term
+		func() {
+			defer func() {
+				if r := recover(); r != nil {
+					if msg, ok := r.(string); ok && strings.HasPrefix(msg, "contract: unknown name") {
+						x.note("atupdate %s does not apply at %s (%s)", c.Label, x.w.Fset.Position(in.Pos()), msg)
+						g = nil
+						return
+					}
+					panic(r)
+				}
+			}()
+			g = x.evalBool(env, c.E)
+		}()
+		if g == nil {
+			continue
+		}
+		if x.atcallApplied == nil {
+			x.atcallApplied = map[string]bool{}
+		}
+		x.atcallApplied["upd:"+c.Label] = true
+		x.oblige(st, "atcall", c.Label, g, "at the map update: "+c.Src, in.Pos())
+		x.assumeIn(st, g)
+	}
 }
